@@ -1,18 +1,32 @@
 From Coq Require Import List Arith Lia Bool.
 Import ListNotations.
-Require Import Infix Expr.
+From MoSql Require Import Model.Infix Model.Expr.
 
-(* Formatter -> parenthesised token tree -> reader/reducer: parse (format t) = t, generic in the tables *)
+(* L3 expression core: formatter -> parenthesised token tree -> reader/reducer.
+   parse (format t) = t for every normal-form tree all of whose edges are "ok" (edges_okb), generic in the tables.
+
+   Values: atoms, applications (operator name, operands), operator-token payloads.  Names, spellings and precedences are
+   numbers here; Generated/Tables.v instantiates them from /repo (harness/extract_tables.py).
+
+   The formatter is table driven: [beh name p] says, for operator [name] rendered in a context of precedence [p], whether the whole
+   rendering is put in parentheses and, for each operand slot, the precedence passed down and whether the renderer wraps that operand
+   in explicit parentheses (as Formatter._not does).  The table is obtained by running every renderer of formatting.py with a recording
+   dispatch, for every precedence of the finite precedence domain. *)
 Inductive jv := JA (n:nat) | JC (name:nat) (args:list jv) | JT (sp:nat).
 
-Inductive okind := KBin | KNary | KPre | KTern.
-Record opinfo := { kind : okind; lvl : nat; sp : nat; sp2 : nat; fprec : nat; ordered : bool }.
+Inductive okind := KBin | KNary | KPre | KTern | KBinNull.
+Record opinfo := { kind : okind; lvl : nat; sp : nat; sp2 : nat; ratom : bool }.
+
+Definition null_atom : jv := JA 0.
+Definition is_null (v:jv) : bool := match v with JA 0 => true | _ => false end.
 
 Section Fmt.
 Variable tbl : list entry.
 Variable info : nat -> option opinfo.     (* formatter vocabulary: operator name -> how it is written *)
 Variable name_of : nat -> nat.            (* spelling -> name : binary_ops / parser_name *)
 Variable is_flat : nat -> bool.           (* the associative set of to_json_operator *)
+Variable fold_of : nat -> option nat.     (* eq / neq / eq! / ne! with a bare NULL operand -> missing / exists *)
+Variable beh : nat -> nat -> bool * list (nat * bool).
 
 (* ---- model of to_json_operator on these values ---- *)
 Definition flat_args (name:nat) (v:jv) : list jv :=
@@ -20,25 +34,24 @@ Definition flat_args (name:nat) (v:jv) : list jv :=
 Definition bbin (x t y:jv) : jv :=
   match t with
   | JT s => let name := name_of s in
-            if is_flat name then JC name (flat_args name x ++ flat_args name y) else JC name [x; y]
+            match fold_of name with
+            | Some f => if is_null y then JC f [x] else if is_null x then JC f [y] else JC name [x; y]
+            | None => if is_flat name then JC name (flat_args name x ++ flat_args name y) else JC name [x; y]
+            end
   | _ => JA 0 end.
 Definition bpre (t y:jv) : jv := match t with JT s => JC (name_of s) [y] | _ => JA 0 end.
 Definition bsuf (x t:jv) : jv := match t with JT s => JC (name_of s) [x] | _ => JA 0 end.
 Definition btern (x t0 y t1 z:jv) : jv := match t0 with JT s => JC (name_of s) [x; y; z] | _ => JA 0 end.
 Definition wrap (v:jv) : jv := v.
 
-(* ---- model of Operator.func / prefix renderer: Python's  prec > op_prec  or  prec == op_prec and not ordered ---- *)
-Definition needs_paren (i:opinfo) (p:nat) : bool :=
-  negb (Nat.ltb (fprec i) p || (Nat.eqb p (fprec i) && negb (ordered i))).
+Notation past := (past jv).
 
-Definition slot_prec (i:opinfo) (s:nat) : nat :=
-  match kind i with
-  | KBin => match s with 0 => fprec i + 1 | _ => fprec i - 1 end
-  | KNary | KTern => fprec i
-  | KPre => fprec i + 1
-  end.
+Definition slot (slots : list (nat * bool)) (k:nat) : nat * bool := nth k slots (200, false).
+Definition nslot (k:nat) : nat := match k with 0 => 0 | _ => 1 end.     (* n-ary chains: first operand / all the others *)
 
-Fixpoint mformat (t:jv) (p:nat) : past jv :=
+Definition fchild (b:past) (sl:nat*bool) : past := if snd sl then PParen jv b else b.
+
+Fixpoint mformat (t:jv) (p:nat) : past :=
   match t with
   | JA n => PLeaf jv (JA n)
   | JT s => PLeaf jv (JT s)
@@ -46,62 +59,92 @@ Fixpoint mformat (t:jv) (p:nat) : past jv :=
     match info name with
     | None => PLeaf jv t
     | Some i =>
+      let '(selfp, slots) := beh name p in
+      let ch c k := fchild (mformat c (fst (slot slots k))) (slot slots k) in
       let body :=
         match kind i, args with
-        | KBin, [l; r] =>
-            Some (PBin jv (lvl i) (JT (sp i)) (mformat l (slot_prec i 0)) (mformat r (slot_prec i 1)))
+        | KBin, [l; r] => Some (PBin jv (lvl i) (JT (sp i)) (ch l 0) (ch r 1))
         | KNary, a0 :: rest =>
-            Some (fold_left (fun acc a => PBin jv (lvl i) (JT (sp i)) acc (mformat a (slot_prec i 1)))
-                            rest (mformat a0 (slot_prec i 0)))
-        | KPre, [c] => Some (PPre jv (lvl i) (JT (sp i)) (mformat c (slot_prec i 0)))
-        | KTern, [a; b; c] =>
-            Some (PTern jv (lvl i) (JT (sp i)) (JT (sp2 i))
-                    (mformat a (slot_prec i 0)) (mformat b (slot_prec i 1)) (mformat c (slot_prec i 2)))
+            Some (fold_left (fun acc a => PBin jv (lvl i) (JT (sp i)) acc (ch a 1)) rest (ch a0 0))
+        | KPre, [c] => Some (PPre jv (lvl i) (JT (sp i)) (ch c 0))
+        | KTern, [a; b; c] => Some (PTern jv (lvl i) (JT (sp i)) (JT (sp2 i)) (ch a 0) (ch b 1) (ch c 2))
+        | KBinNull, [c] => Some (PBin jv (lvl i) (JT (sp i)) (ch c 0) (PLeaf jv null_atom))
         | _, _ => None
         end in
       match body with
-      | Some b => if needs_paren i p then PParen jv b else b
+      | Some b => if selfp then PParen jv b else b
       | None => PLeaf jv t
       end
     end
   end.
 
-(* ---- table consistency (each is a finite check on the generated tables) ---- *)
-Hypothesis H_sp : forall n i, info n = Some i -> name_of (sp i) = n.
+(* ---- the edge condition: wherever the formatter leaves an operand without parentheses, the parser's levels must allow it ---- *)
+Definition exposed (c:jv) (sl:nat*bool) : option opinfo :=
+  if snd sl then None else
+  match c with
+  | JC n _ => match info n with
+              | Some iC => if fst (beh n (fst sl)) then None else Some iC
+              | None => None end
+  | _ => None
+  end.
+Definition slot_okb (iP:opinfo) (s:nat) (l:nat) : bool :=
+  match kind iP with
+  | KPre => Nat.leb l (lvl iP)
+  | _ => match s with 0 => Nat.leb l (lvl iP) | _ => Nat.ltb l (lvl iP) end
+  end.
+Definition edge_okb (iP:opinfo) (s:nat) (c:jv) (sl:nat*bool) : bool :=
+  match exposed c sl with Some iC => slot_okb iP s (lvl iC) | None => true end.
+
+Fixpoint edges_okb (t:jv) (p:nat) : bool :=
+  match t with
+  | JC name args =>
+    match info name with
+    | None => true
+    | Some i =>
+      let slots := snd (beh name p) in
+      let sidx k := match kind i with KNary => nslot k | _ => k end in
+      (fix go (k:nat) (l:list jv) : bool :=
+         match l with
+         | [] => true
+         | c :: r => edge_okb i (sidx k) c (slot slots (sidx k)) && edges_okb c (fst (slot slots (sidx k))) && go (S k) r
+         end) 0 args
+    end
+  | _ => true
+  end.
+
+(* ---- table consistency (each is a finite check on the generated tables, Oblig/) ---- *)
+Hypothesis H_sp : forall n i, info n = Some i ->
+  match kind i with KBinNull => fold_of (name_of (sp i)) = Some n | _ => name_of (sp i) = n end.
 Hypothesis H_flat : forall n i, info n = Some i ->
-  is_flat n = match kind i with KNary => true | _ => false end.
+  match kind i with
+  | KNary => is_flat n = true /\ fold_of n = None
+  | KBin => is_flat n = false
+  | _ => True end.
 Hypothesis H_tbl : forall n i, info n = Some i ->
   match kind i with
-  | KBin | KNary => exists o, nth_error tbl (lvl i) = Some (EBin o)
+  | KBin | KNary | KBinNull => exists o, nth_error tbl (lvl i) = Some (EBin o)
   | KPre => exists o, nth_error tbl (lvl i) = Some (EPre o)
   | KTern => exists o0 o1, nth_error tbl (lvl i) = Some (ETern o0 o1)
   end.
-Definition slot_ok (i:opinfo) (s:nat) (l:nat) : Prop :=
-  match kind i with
-  | KPre => l <= lvl i
-  | _ => match s with 0 => l <= lvl i | _ => l < lvl i end
-  end.
-(* the formatter omits parentheses only where the parser's own levels allow it *)
-Hypothesis H_edges : forall P iP C iC s, info P = Some iP -> info C = Some iC ->
-  needs_paren iC (slot_prec iP s) = false -> slot_ok iP s (lvl iC).
 
-Notation past := (past jv).
 Notation flat := (Expr.flat jv bpre bsuf bbin btern wrap).
 Notation peval := (Expr.peval jv bpre bsuf bbin btern wrap).
 Notation pwf := (Expr.pwf jv bpre bsuf bbin btern wrap tbl).
 Notation wf := (Infix.wf jv tbl).
 
-Definition arity_ok (name:nat) (k:okind) (args:list jv) : Prop :=
-  match k with
-  | KBin => length args = 2
-  | KPre => length args = 1
+(* ---- normal form: what the parser itself produces over this vocabulary ---- *)
+Definition arity_ok (name:nat) (i:opinfo) (args:list jv) : Prop :=
+  match kind i with
+  | KBin => length args = 2 /\ (fold_of name <> None -> Forall (fun a => is_null a = false) args)
+            /\ (ratom i = true -> exists l n, args = [l; JA n])
+  | KPre | KBinNull => length args = 1
   | KTern => length args = 3
   | KNary => 2 <= length args /\ Forall (fun a => flat_args name a = [a]) args
   end.
 Inductive nf : jv -> Prop :=
 | NfA n : nf (JA n)
 | NfOut name args : info name = None -> nf (JC name args)
-| NfOp name i args : info name = Some i -> Forall nf args -> arity_ok name (kind i) args -> nf (JC name args).
+| NfOp name i args : info name = Some i -> Forall nf args -> arity_ok name i args -> nf (JC name args).
 
 Section JvInd.
 Variable P : jv -> Prop.
@@ -125,123 +168,164 @@ Proof. destruct e; simpl; intros; subst; auto; contradiction. Qed.
 Lemma root_is_lt e k L : root_is e k -> k < L -> lt_lvl jv e L.
 Proof. destruct e; simpl; intros; subst; auto; contradiction. Qed.
 
-Definition chain (i:opinfo) (acc:past) (rest:list jv) : past :=
-  fold_left (fun acc a => PBin jv (lvl i) (JT (sp i)) acc (mformat a (slot_prec i 1))) rest acc.
+Definition ch (slots:list (nat*bool)) (c:jv) (k:nat) : past :=
+  fchild (mformat c (fst (slot slots k))) (slot slots k).
 
-Definition mbody (i:opinfo) (args:list jv) : option past :=
+Definition chain (i:opinfo) (slots:list (nat*bool)) (acc:past) (rest:list jv) : past :=
+  fold_left (fun acc a => PBin jv (lvl i) (JT (sp i)) acc (ch slots a 1)) rest acc.
+
+Definition mbody (i:opinfo) (slots:list (nat*bool)) (args:list jv) : option past :=
   match kind i, args with
-  | KBin, [l; r] =>
-      Some (PBin jv (lvl i) (JT (sp i)) (mformat l (slot_prec i 0)) (mformat r (slot_prec i 1)))
-  | KNary, a0 :: rest => Some (chain i (mformat a0 (slot_prec i 0)) rest)
-  | KPre, [c] => Some (PPre jv (lvl i) (JT (sp i)) (mformat c (slot_prec i 0)))
-  | KTern, [a; b; c] =>
-      Some (PTern jv (lvl i) (JT (sp i)) (JT (sp2 i))
-              (mformat a (slot_prec i 0)) (mformat b (slot_prec i 1)) (mformat c (slot_prec i 2)))
+  | KBin, [l; r] => Some (PBin jv (lvl i) (JT (sp i)) (ch slots l 0) (ch slots r 1))
+  | KNary, a0 :: rest => Some (chain i slots (ch slots a0 0) rest)
+  | KPre, [c] => Some (PPre jv (lvl i) (JT (sp i)) (ch slots c 0))
+  | KTern, [a; b; c] => Some (PTern jv (lvl i) (JT (sp i)) (JT (sp2 i)) (ch slots a 0) (ch slots b 1) (ch slots c 2))
+  | KBinNull, [c] => Some (PBin jv (lvl i) (JT (sp i)) (ch slots c 0) (PLeaf jv null_atom))
   | _, _ => None
   end.
 
 Lemma mformat_op name args i p : info name = Some i ->
   mformat (JC name args) p =
-  match mbody i args with
-  | Some b => if needs_paren i p then PParen jv b else b
+  match mbody i (snd (beh name p)) args with
+  | Some b => if fst (beh name p) then PParen jv b else b
   | None => PLeaf jv (JC name args)
   end.
-Proof. intros H. cbn [mformat]. rewrite H. unfold mbody, chain.
+Proof. intros H. cbn [mformat]. rewrite H. destruct (beh name p) as [selfp slots]. cbn [fst snd].
+  unfold mbody, chain, ch.
   destruct (kind i); destruct args as [|a0 [|a1 [|a2 [|a3 r]]]]; reflexivity. Qed.
 
-Lemma chain_root i : forall rest acc, root_is (flat acc) (lvl i) -> root_is (flat (chain i acc rest)) (lvl i).
+Lemma chain_root i slots : forall rest acc, root_is (flat acc) (lvl i) -> root_is (flat (chain i slots acc rest)) (lvl i).
 Proof. unfold chain. induction rest as [|a r IH]; intros acc H; cbn [fold_left]; auto. apply IH. reflexivity. Qed.
 
-Lemma mbody_root name i args b :
-  info name = Some i -> arity_ok name (kind i) args -> mbody i args = Some b -> root_is (flat b) (lvl i).
+Lemma mbody_root name i slots args b :
+  info name = Some i -> arity_ok name i args -> mbody i slots args = Some b -> root_is (flat b) (lvl i).
 Proof.
   intros Hi Har Hb. unfold mbody in Hb. unfold arity_ok in Har. destruct (kind i) eqn:Ek.
-  - destruct args as [|l [|r [|? ?]]]; simpl in Har; try lia. injection Hb as <-. reflexivity.
+  - destruct Har as [Hlen _]. destruct args as [|l [|r [|? ?]]]; simpl in Hlen; try lia. injection Hb as <-. reflexivity.
   - destruct Har as [Hlen _]. destruct args as [|a0 [|a1 rest]]; simpl in Hlen; try lia.
-    injection Hb as <-. unfold chain. cbn [fold_left]. apply (chain_root i rest). reflexivity.
+    injection Hb as <-. unfold chain. cbn [fold_left]. apply (chain_root i slots rest). reflexivity.
   - destruct args as [|c [|? ?]]; simpl in Har; try lia. injection Hb as <-. reflexivity.
   - destruct args as [|a [|b0 [|c [|? ?]]]]; simpl in Har; try lia. injection Hb as <-. reflexivity.
+  - destruct args as [|c [|? ?]]; simpl in Har; try lia. injection Hb as <-. reflexivity.
 Qed.
-
-Definition head_info (t:jv) : option opinfo := match t with JC name _ => info name | _ => None end.
 
 (* what the parent needs to know about a formatted child *)
-Lemma child_root c p :
+Lemma child_root slots c k :
   nf c ->
-  (exists v, flat (mformat c p) = Leaf jv v) \/
-  (exists iC, head_info c = Some iC /\ needs_paren iC p = false /\ root_is (flat (mformat c p)) (lvl iC)).
+  (exists v, flat (ch slots c k) = Leaf jv v) \/
+  (exists iC, exposed c (slot slots k) = Some iC /\ root_is (flat (ch slots c k)) (lvl iC)).
 Proof.
-  intros Hnf. inversion Hnf as [n|name args Hnone|name i args Hi HF Har]; subst.
+  intros Hnf. unfold ch, fchild, exposed. destruct (snd (slot slots k)) eqn:Ew.
+  { left. eexists. reflexivity. }
+  inversion Hnf as [n|name args Hnone|name i args Hi HF Har]; subst.
   - left. eexists. reflexivity.
   - left. cbn [mformat]. rewrite Hnone. eexists. reflexivity.
-  - rewrite (mformat_op name args i p Hi).
-    destruct (mbody i args) as [b|] eqn:Eb; [|left; eexists; reflexivity].
-    destruct (needs_paren i p) eqn:Ep; [left; eexists; reflexivity|].
-    right. exists i. simpl. repeat split; auto. eapply mbody_root; eauto.
+  - rewrite (mformat_op name args i _ Hi). rewrite Hi.
+    destruct (mbody i (snd (beh name (fst (slot slots k)))) args) as [b|] eqn:Eb; [|left; eexists; reflexivity].
+    destruct (fst (beh name (fst (slot slots k)))) eqn:Ep; [left; eexists; reflexivity|].
+    right. exists i. split; auto. eapply mbody_root; eauto.
 Qed.
 
-Lemma child_slot_ok P iP s c :
-  info P = Some iP -> nf c ->
+Lemma child_slot_ok iP s slots c k :
+  nf c -> edge_okb iP s c (slot slots k) = true ->
   match kind iP with
-  | KPre => le_lvl jv (flat (mformat c (slot_prec iP s))) (lvl iP)
+  | KPre => le_lvl jv (flat (ch slots c k)) (lvl iP)
   | _ => match s with
-         | 0 => le_lvl jv (flat (mformat c (slot_prec iP s))) (lvl iP)
-         | _ => lt_lvl jv (flat (mformat c (slot_prec iP s))) (lvl iP)
+         | 0 => le_lvl jv (flat (ch slots c k)) (lvl iP)
+         | _ => lt_lvl jv (flat (ch slots c k)) (lvl iP)
          end
   end.
 Proof.
-  intros HP Hnf.
-  destruct (child_root c (slot_prec iP s) Hnf) as [[v Hv]|(iC & Hh & Hp & Hr)].
+  intros Hnf He.
+  destruct (child_root slots c k Hnf) as [[v Hv]|(iC & Hx & Hr)].
   - rewrite Hv. destruct (kind iP); destruct s; simpl; exact I.
-  - assert (Hinfo : exists C, info C = Some iC).
-    { destruct c; simpl in Hh; try discriminate. eauto. }
-    destruct Hinfo as [C HC].
-    pose proof (H_edges P iP C iC s HP HC Hp) as Hok. unfold slot_ok in Hok.
-    destruct (kind iP); destruct s; try (eapply root_is_le; eauto); try (eapply root_is_lt; eauto).
+  - unfold edge_okb in He. rewrite Hx in He. unfold slot_okb in He.
+    destruct (kind iP); destruct s;
+      try (apply Nat.leb_le in He; eapply root_is_le; eauto);
+      try (apply Nat.ltb_lt in He; eapply root_is_lt; eauto).
 Qed.
-
 
 Definition okp (a:past) (t:jv) : Prop := pwf a /\ wf (flat a) /\ peval a = t.
 
-Lemma paren_ok b t i p : okp b t -> okp (if needs_paren i p then PParen jv b else b) t.
-Proof. intros (H1 & H2 & H3). destruct (needs_paren i p); [|repeat split; auto].
+Lemma paren_ok b t (w:bool) : okp b t -> okp (if w then PParen jv b else b) t.
+Proof. intros (H1 & H2 & H3). destruct w; [|repeat split; auto].
   repeat split; simpl; auto. Qed.
 
-Lemma bbin_plain name i x y : info name = Some i -> kind i = KBin -> bbin x (JT (sp i)) y = JC name [x; y].
-Proof. intros Hi Hk. unfold bbin. rewrite (H_sp name i Hi), (H_flat name i Hi), Hk. reflexivity. Qed.
+Lemma bbin_plain name i x y : info name = Some i -> kind i = KBin ->
+  (fold_of name <> None -> is_null x = false /\ is_null y = false) ->
+  bbin x (JT (sp i)) y = JC name [x; y].
+Proof. intros Hi Hk Hn. unfold bbin. pose proof (H_sp name i Hi) as Hs. rewrite Hk in Hs. rewrite Hs.
+  pose proof (H_flat name i Hi) as Hf. rewrite Hk in Hf.
+  destruct (fold_of name) eqn:Ef.
+  - destruct Hn as [Hx Hy]; [discriminate|]. rewrite Hx, Hy. reflexivity.
+  - rewrite Hf. reflexivity. Qed.
 Lemma bbin_flat name i prefix y : info name = Some i -> kind i = KNary -> flat_args name y = [y] ->
   bbin (JC name prefix) (JT (sp i)) y = JC name (prefix ++ [y]).
-Proof. intros Hi Hk Hy. unfold bbin. rewrite (H_sp name i Hi), (H_flat name i Hi), Hk.
+Proof. intros Hi Hk Hy. unfold bbin. pose proof (H_sp name i Hi) as Hs. rewrite Hk in Hs. rewrite Hs.
+  pose proof (H_flat name i Hi) as Hf. rewrite Hk in Hf. destruct Hf as [Hf1 Hf2]. rewrite Hf2, Hf1.
   cbn [flat_args]. rewrite Nat.eqb_refl, Hy. reflexivity. Qed.
 Lemma bbin_flat0 name i x y : info name = Some i -> kind i = KNary ->
   flat_args name x = [x] -> flat_args name y = [y] -> bbin x (JT (sp i)) y = JC name [x; y].
-Proof. intros Hi Hk Hx Hy. unfold bbin. rewrite (H_sp name i Hi), (H_flat name i Hi), Hk, Hx, Hy. reflexivity. Qed.
+Proof. intros Hi Hk Hx Hy. unfold bbin. pose proof (H_sp name i Hi) as Hs. rewrite Hk in Hs. rewrite Hs.
+  pose proof (H_flat name i Hi) as Hf. rewrite Hk in Hf. destruct Hf as [Hf1 Hf2]. rewrite Hf2, Hf1, Hx, Hy. reflexivity. Qed.
+Lemma bbin_null name i x : info name = Some i -> kind i = KBinNull ->
+  bbin x (JT (sp i)) null_atom = JC name [x].
+Proof. intros Hi Hk. unfold bbin. pose proof (H_sp name i Hi) as Hs. rewrite Hk in Hs. rewrite Hs. reflexivity. Qed.
 
-Definition childok (a:jv) : Prop := nf a /\ forall p, okp (mformat a p) a.
+(* a child together with what the induction knows about it *)
+Definition childok (a:jv) : Prop := nf a /\ forall p, edges_okb a p = true -> okp (mformat a p) a.
 
-Lemma chain_ok name i : info name = Some i -> kind i = KNary -> forall rest acc prefix,
-  Forall (fun a => childok a /\ flat_args name a = [a]) rest ->
+Lemma ch_ok slots a k : childok a -> edges_okb a (fst (slot slots k)) = true -> okp (ch slots a k) a.
+Proof. intros [Hnf Hok] He. unfold ch, fchild. apply paren_ok. apply Hok. exact He. Qed.
+
+Lemma chain_ok name i slots : info name = Some i -> kind i = KNary -> forall rest acc prefix,
+  Forall (fun a => childok a /\ flat_args name a = [a]
+                   /\ edge_okb i 1 a (slot slots 1) = true /\ edges_okb a (fst (slot slots 1)) = true) rest ->
   pwf acc -> wf (flat acc) -> root_is (flat acc) (lvl i) -> peval acc = JC name prefix ->
-  okp (chain i acc rest) (JC name (prefix ++ rest)).
+  okp (chain i slots acc rest) (JC name (prefix ++ rest)).
 Proof.
   intros Hi Hk. unfold chain.
   induction rest as [|a r IH]; intros acc prefix HF H1 H2 H3 H4; cbn [fold_left].
   - rewrite app_nil_r. repeat split; auto.
-  - inversion HF as [|? ? [[Hnf Hok] Hfa] HFr]; subst.
-    destruct (Hok (slot_prec i 1)) as (Ha1 & Ha2 & Ha3).
+  - inversion HF as [|? ? (Hc & Hfa & He1 & He2) HFr]; subst.
+    destruct (ch_ok slots a 1 Hc He2) as (Ha1 & Ha2 & Ha3).
     replace (prefix ++ a :: r) with ((prefix ++ [a]) ++ r) by (rewrite <- app_assoc; reflexivity).
     apply IH; auto.
     + simpl. split; auto.
     + simpl. pose proof (H_tbl name i Hi) as Ht. rewrite Hk in Ht.
-      pose proof (child_slot_ok name i 1 a Hi Hnf) as Hs. rewrite Hk in Hs.
+      pose proof (child_slot_ok i 1 slots a 1 (proj1 Hc) He1) as Hs. rewrite Hk in Hs.
       repeat split; auto. eapply root_is_le; eauto.
     + reflexivity.
     + simpl. rewrite H4, Ha3. apply bbin_flat; auto.
 Qed.
 
-Theorem fmt_ok : forall t, nf t -> forall p, okp (mformat t p) t.
+Lemma edges_unfold name i args p : info name = Some i ->
+  edges_okb (JC name args) p =
+  (fix go (k:nat) (l:list jv) : bool :=
+     match l with
+     | [] => true
+     | c :: r => edge_okb i (match kind i with KNary => nslot k | _ => k end) c
+                   (slot (snd (beh name p)) (match kind i with KNary => nslot k | _ => k end))
+                 && edges_okb c (fst (slot (snd (beh name p)) (match kind i with KNary => nslot k | _ => k end))) && go (S k) r
+     end) 0 args.
+Proof. intros H. cbn [edges_okb]. rewrite H. reflexivity. Qed.
+
+Lemma nary_rest_edges i slots : forall rest k,
+  (fix go (k:nat) (l:list jv) : bool :=
+     match l with
+     | [] => true
+     | c :: r => edge_okb i (nslot k) c (slot slots (nslot k)) && edges_okb c (fst (slot slots (nslot k))) && go (S k) r
+     end) (S k) rest = true ->
+  Forall (fun a => edge_okb i 1 a (slot slots 1) = true /\ edges_okb a (fst (slot slots 1)) = true) rest.
 Proof.
-  induction t as [n|s|name args IH] using jv_ind'; intros Hnf p.
+  induction rest as [|a r IH]; intros k H; constructor.
+  - apply andb_true_iff in H as [H _]. apply andb_true_iff in H as [H1 H2]. simpl in *. auto.
+  - apply andb_true_iff in H as [_ H]. apply (IH (S k)). exact H.
+Qed.
+
+Theorem fmt_ok : forall t, nf t -> forall p, edges_okb t p = true -> okp (mformat t p) t.
+Proof.
+  induction t as [n|s|name args IH] using jv_ind'; intros Hnf p He.
   - repeat split; simpl; auto.
   - inversion Hnf.
   - inversion Hnf as [|? ? Hnone|? i ? Hi HF Har]; subst.
@@ -249,49 +333,75 @@ Proof.
     + assert (HC : Forall childok args).
       { clear - IH HF. induction IH; inversion HF; subst; constructor; auto. split; auto. }
       rewrite (mformat_op name args i p Hi).
+      rewrite (edges_unfold name i args p Hi) in He.
+      set (slots := snd (beh name p)) in *.
       pose proof (H_tbl name i Hi) as Ht.
       unfold mbody. unfold arity_ok in Har. destruct (kind i) eqn:Ek.
       * (* binary *)
-        destruct args as [|l [|r [|? ?]]]; simpl in Har; try lia.
-        inversion HC as [|? ? [Hnl Hl] HC']; subst. inversion HC' as [|? ? [Hnr Hr] _]; subst.
+        destruct Har as (Hlen & Hnn & _). destruct args as [|l [|r [|? ?]]]; simpl in Hlen; try lia.
+        inversion HC as [|? ? Hcl HC']; subst. inversion HC' as [|? ? Hcr _]; subst.
+        apply andb_true_iff in He as [He Her]. apply andb_true_iff in He as [El1 El2].
+        apply andb_true_iff in Her as [Her _]. apply andb_true_iff in Her as [Er1 Er2].
         apply paren_ok.
-        destruct (Hl (slot_prec i 0)) as (L1 & L2 & L3). destruct (Hr (slot_prec i 1)) as (R1 & R2 & R3).
-        pose proof (child_slot_ok name i 0 l Hi Hnl) as Sl. pose proof (child_slot_ok name i 1 r Hi Hnr) as Sr.
+        destruct (ch_ok slots l 0 Hcl El2) as (L1 & L2 & L3). destruct (ch_ok slots r 1 Hcr Er2) as (R1 & R2 & R3).
+        pose proof (child_slot_ok i 0 slots l 0 (proj1 Hcl) El1) as Sl.
+        pose proof (child_slot_ok i 1 slots r 1 (proj1 Hcr) Er1) as Sr.
         rewrite Ek in Sl, Sr.
         repeat split; simpl; auto. rewrite L3, R3. apply bbin_plain; auto.
+        intros Hf. specialize (Hnn Hf). inversion Hnn as [|? ? Hx Hnn']; subst. inversion Hnn'; subst. auto.
       * (* n-ary *)
         destruct Har as [Hlen Hfa]. destruct args as [|a0 [|a1 rest]]; simpl in Hlen; try lia.
         apply paren_ok.
-        inversion HC as [|? ? [Hn0 H0] HC']; subst. inversion HC' as [|? ? [Hn1 H1] HCr]; subst.
+        inversion HC as [|? ? Hc0 HC']; subst. inversion HC' as [|? ? Hc1 HCr]; subst.
         inversion Hfa as [|? ? F0 Hfa']; subst. inversion Hfa' as [|? ? F1 Hfar]; subst.
-        destruct (H0 (slot_prec i 0)) as (A1 & A2 & A3). destruct (H1 (slot_prec i 1)) as (B1 & B2 & B3).
-        pose proof (child_slot_ok name i 0 a0 Hi Hn0) as S0. pose proof (child_slot_ok name i 1 a1 Hi Hn1) as S1.
+        apply andb_true_iff in He as [He Her]. apply andb_true_iff in He as [E01 E02].
+        apply andb_true_iff in Her as [He1 Her]. apply andb_true_iff in He1 as [E11 E12].
+        cbn [nslot] in *.
+        destruct (ch_ok slots a0 0 Hc0 E02) as (A1 & A2 & A3). destruct (ch_ok slots a1 1 Hc1 E12) as (B1 & B2 & B3).
+        pose proof (child_slot_ok i 0 slots a0 0 (proj1 Hc0) E01) as S0.
+        pose proof (child_slot_ok i 1 slots a1 1 (proj1 Hc1) E11) as S1.
         rewrite Ek in S0, S1.
         unfold chain. cbn [fold_left].
         change (a0 :: a1 :: rest) with ([a0; a1] ++ rest).
-        apply (chain_ok name i Hi Ek rest); auto.
-        -- clear - HCr Hfar. induction HCr; inversion Hfar; subst; constructor; auto.
+        apply (chain_ok name i slots Hi Ek rest); auto.
+        -- pose proof (nary_rest_edges i slots rest 1 Her) as HE.
+           clear - HCr Hfar HE. induction HCr; inversion Hfar; inversion HE; subst; constructor; auto.
         -- simpl. split; auto.
         -- simpl. repeat split; auto.
         -- reflexivity.
         -- simpl. rewrite A3, B3. apply bbin_flat0; auto.
       * (* prefix *)
         destruct args as [|c [|? ?]]; simpl in Har; try lia.
-        inversion HC as [|? ? [Hnc Hc] _]; subst.
+        inversion HC as [|? ? Hcc _]; subst.
+        apply andb_true_iff in He as [He _]. apply andb_true_iff in He as [E1 E2].
         apply paren_ok.
-        destruct (Hc (slot_prec i 0)) as (C1 & C2 & C3).
-        pose proof (child_slot_ok name i 0 c Hi Hnc) as Sc. rewrite Ek in Sc.
-        repeat split; simpl; auto. rewrite C3. unfold bpre. rewrite (H_sp name i Hi). reflexivity.
+        destruct (ch_ok slots c 0 Hcc E2) as (C1 & C2 & C3).
+        pose proof (child_slot_ok i 0 slots c 0 (proj1 Hcc) E1) as Sc. rewrite Ek in Sc.
+        repeat split; simpl; auto. rewrite C3. unfold bpre.
+        pose proof (H_sp name i Hi) as Hs. rewrite Ek in Hs. rewrite Hs. reflexivity.
       * (* ternary *)
         destruct args as [|a [|b [|c [|? ?]]]]; simpl in Har; try lia.
-        inversion HC as [|? ? [Hna Ha] HC']; subst. inversion HC' as [|? ? [Hnb Hb] HC'']; subst.
-        inversion HC'' as [|? ? [Hnc Hc] _]; subst.
+        inversion HC as [|? ? Hca HC']; subst. inversion HC' as [|? ? Hcb HC'']; subst.
+        inversion HC'' as [|? ? Hcc _]; subst.
+        apply andb_true_iff in He as [He Her]. apply andb_true_iff in He as [Ea1 Ea2].
+        apply andb_true_iff in Her as [He Her]. apply andb_true_iff in He as [Eb1 Eb2].
+        apply andb_true_iff in Her as [He _]. apply andb_true_iff in He as [Ec1 Ec2].
         apply paren_ok.
-        destruct (Ha (slot_prec i 0)) as (A1 & A2 & A3). destruct (Hb (slot_prec i 1)) as (B1 & B2 & B3).
-        destruct (Hc (slot_prec i 2)) as (C1 & C2 & C3).
-        pose proof (child_slot_ok name i 0 a Hi Hna) as Sa. pose proof (child_slot_ok name i 1 b Hi Hnb) as Sb.
-        pose proof (child_slot_ok name i 2 c Hi Hnc) as Sc. rewrite Ek in Sa, Sb, Sc.
-        repeat split; simpl; auto. rewrite A3, B3, C3. unfold btern. rewrite (H_sp name i Hi). reflexivity.
+        destruct (ch_ok slots a 0 Hca Ea2) as (A1 & A2 & A3). destruct (ch_ok slots b 1 Hcb Eb2) as (B1 & B2 & B3).
+        destruct (ch_ok slots c 2 Hcc Ec2) as (C1 & C2 & C3).
+        pose proof (child_slot_ok i 0 slots a 0 (proj1 Hca) Ea1) as Sa.
+        pose proof (child_slot_ok i 1 slots b 1 (proj1 Hcb) Eb1) as Sb.
+        pose proof (child_slot_ok i 2 slots c 2 (proj1 Hcc) Ec1) as Sc. rewrite Ek in Sa, Sb, Sc.
+        repeat split; simpl; auto. rewrite A3, B3, C3. unfold btern.
+        pose proof (H_sp name i Hi) as Hs. rewrite Ek in Hs. rewrite Hs. reflexivity.
+      * (* IS [NOT] NULL *)
+        destruct args as [|c [|? ?]]; simpl in Har; try lia.
+        inversion HC as [|? ? Hcc _]; subst.
+        apply andb_true_iff in He as [He _]. apply andb_true_iff in He as [E1 E2].
+        apply paren_ok.
+        destruct (ch_ok slots c 0 Hcc E2) as (C1 & C2 & C3).
+        pose proof (child_slot_ok i 0 slots c 0 (proj1 Hcc) E1) as Sc. rewrite Ek in Sc.
+        repeat split; simpl; auto. rewrite C3. apply bbin_null; auto.
 Qed.
 
 (* end to end: what the reader/reducer makes of the formatter's tokens *)
@@ -300,13 +410,12 @@ Hypothesis main_inj : forall i j ei ej,
 Hypothesis partner_looser : forall k o0 o1 j ej,
   nth_error tbl k = Some (ETern o0 o1) -> nth_error tbl j = Some ej -> main ej = o1 -> k < j.
 
-Theorem format_then_parse : forall t p, nf t ->
+Theorem format_then_parse : forall t p, nf t -> edges_okb t p = true ->
   exists f, parse_expr jv bpre bsuf bbin btern wrap tbl f (tokens jv tbl (mformat t p)) = Some (t, []).
 Proof.
-  intros t p Hnf. destruct (fmt_ok t Hnf p) as (H1 & H2 & H3).
+  intros t p Hnf He. destruct (fmt_ok t Hnf p He) as (H1 & H2 & H3).
   destruct (parse_tokens jv bpre bsuf bbin btern wrap tbl main_inj partner_looser (mformat t p) [] H1 H2 I) as [f Hf].
   exists f. rewrite app_nil_r in Hf. rewrite Hf, H3. reflexivity.
 Qed.
 
 End Fmt.
-Print Assumptions format_then_parse.
